@@ -395,6 +395,36 @@ pub fn count_allocs<R>(f: impl FnOnce() -> R) -> (R, usize) {
 }
 
 // ---------------------------------------------------------------------------------------------
+// a minimal block_on without nesting restrictions (park/unpark waker)
+// ---------------------------------------------------------------------------------------------
+struct ParkWaker(std::thread::Thread);
+impl std::task::Wake for ParkWaker {
+    fn wake(self: std::sync::Arc<Self>) {
+        self.0.unpark();
+    }
+    fn wake_by_ref(self: &std::sync::Arc<Self>) {
+        self.0.unpark();
+    }
+}
+pub fn bo<F: std::future::Future>(f: F) -> F::Output {
+    let mut f = Box::pin(f);
+    let w: std::task::Waker = std::sync::Arc::new(ParkWaker(std::thread::current())).into();
+    let mut cx = std::task::Context::from_waker(&w);
+    loop {
+        if let std::task::Poll::Ready(v) = f.as_mut().poll(&mut cx) {
+            return v;
+        }
+        std::thread::park_timeout(std::time::Duration::from_millis(50));
+    }
+}
+pub fn x2(q: (i32, i32)) -> i32 {
+    q.0 * 7 + q.1
+}
+pub fn xr(q: Result<(i32, i32), i32>) -> i32 {
+    q.map(x2).unwrap_or(-1)
+}
+
+// ---------------------------------------------------------------------------------------------
 // differential driver
 // ---------------------------------------------------------------------------------------------
 #[derive(Clone, Copy, PartialEq, Eq)]
